@@ -447,6 +447,7 @@ type ELBlock struct {
 	NGoat        int
 	Requests     [][]byte
 	State        *ELState
+	Canon        bool // some node made it its head: peers can fetch it
 	GoatTxs      []*GoatTxInfo
 	Ops          []*ELOp
 	Gas          *big.Int
@@ -722,6 +723,7 @@ type ELNode struct {
 	buildSeq  uint64
 
 	FaultsSnapshot []*EngineFault
+	Trouble        int // answers other than VALID that were not injected (syncing, build errors, invalid payloads)
 }
 
 func newELNode(id int, chain *ELChain, seed uint64) *ELNode {
@@ -752,6 +754,19 @@ func (n *ELNode) restart() {
 }
 
 func (n *ELNode) arm(f []*EngineFault) { n.Faults = f }
+
+// syncFromPeers models what a geth node does after it answered SYNCING: it fetches blocks that
+// other nodes made canonical. Called before a block hash is looked up.
+func (n *ELNode) syncFromPeers(h common.Hash) {
+	for {
+		b := n.Chain.Blocks[h]
+		if b == nil || n.Known[h] || !b.Canon {
+			return
+		}
+		n.Known[h] = true
+		h = b.Parent
+	}
+}
 
 func (n *ELNode) takeFault(call string) *EngineFault {
 	for _, f := range n.Faults {
@@ -857,12 +872,15 @@ func (api *engineAPI) ForkchoiceUpdatedV3(ctx context.Context, state engine.Fork
 			return status(engine.ACCEPTED, nil), nil
 		}
 	}
+	n.syncFromPeers(state.HeadBlockHash)
 	head := n.Chain.Blocks[state.HeadBlockHash]
 	if head == nil || !n.Known[state.HeadBlockHash] {
+		n.Trouble++
 		n.record(call, digest, "SYNCING", f)
 		return status(engine.SYNCING, nil), nil
 	}
 	if attrs == nil {
+		head.Canon = true
 		n.Head, n.Safe, n.Final = state.HeadBlockHash, state.SafeBlockHash, state.FinalizedBlockHash
 		n.Chain.dropFromPool(head)
 		n.record(call, digest, "VALID", f)
@@ -873,6 +891,7 @@ func (api *engineAPI) ForkchoiceUpdatedV3(ctx context.Context, state engine.Fork
 	blk, err := n.Chain.build(head, attrs, n.Chain.Tamper[n.ID])
 	delete(n.Chain.Tamper, n.ID)
 	if err != nil {
+		n.Trouble++
 		n.record(call, digest, "builderror:"+err.Error(), f)
 		return engine.ForkChoiceResponse{}, &rpcErr{code: -38003, msg: "Invalid payload attributes: " + err.Error()}
 	}
@@ -955,21 +974,34 @@ func (api *engineAPI) NewPayloadV4(ctx context.Context, data engine.ExecutableDa
 	if versionedHashes == nil {
 		return engine.PayloadStatusV1{}, &rpcErr{code: -32602, msg: "nil versionedHashes post-cancun"}
 	}
-	if b := n.Chain.Blocks[data.BlockHash]; b != nil && n.Known[data.BlockHash] {
-		n.record("newPayload", digest, "VALID(known)", f)
-		return engine.PayloadStatusV1{Status: engine.VALID, LatestValidHash: &data.BlockHash}, nil
-	}
-	parent := n.Chain.Blocks[data.ParentHash]
-	if parent == nil || !n.Known[data.ParentHash] {
-		n.record("newPayload", digest, "SYNCING(noparent)", f)
-		return engine.PayloadStatusV1{Status: engine.SYNCING}, nil
-	}
 	reqs := make([][]byte, len(requests))
 	for i := range requests {
 		reqs[i] = requests[i]
 	}
+	{
+		// like ExecutableDataToBlock: the hash must be the hash of exactly this body
+		probe := &ELBlock{Parent: data.ParentHash, Number: data.Number, Timestamp: data.Timestamp, FeeRecipient: data.FeeRecipient,
+			Random: data.Random, Extra: data.ExtraData, Txs: data.Transactions, Requests: reqs, BeaconRoot: *beaconRoot}
+		if h := elBlockHash(probe, data.StateRoot); h != data.BlockHash || (data.BlobGasUsed != nil && *data.BlobGasUsed != 0) {
+			n.Trouble++
+			n.record("newPayload", digest, "INVALID:blockhash mismatch", f)
+			return engine.PayloadStatusV1{Status: engine.INVALID, ValidationError: strp("blockhash mismatch")}, nil
+		}
+	}
+	if b := n.Chain.Blocks[data.BlockHash]; b != nil && n.Known[data.BlockHash] {
+		n.record("newPayload", digest, "VALID(known)", f)
+		return engine.PayloadStatusV1{Status: engine.VALID, LatestValidHash: &data.BlockHash}, nil
+	}
+	n.syncFromPeers(data.ParentHash)
+	parent := n.Chain.Blocks[data.ParentHash]
+	if parent == nil || !n.Known[data.ParentHash] {
+		n.Trouble++
+		n.record("newPayload", digest, "SYNCING(noparent)", f)
+		return engine.PayloadStatusV1{Status: engine.SYNCING}, nil
+	}
 	blk, verr := n.Chain.validate(parent, &data, beaconRoot, reqs)
 	if verr != nil {
+		n.Trouble++
 		n.record("newPayload", digest, "INVALID:"+verr.Error(), f)
 		return engine.PayloadStatusV1{Status: engine.INVALID, LatestValidHash: &data.ParentHash, ValidationError: strp(verr.Error())}, nil
 	}
